@@ -8,7 +8,9 @@
 #include <cstdio>
 #include <functional>
 #include <algorithm>
+#include <cstring>
 #include <map>
+#include <new>
 #include <memory>
 #include <set>
 #include <string>
@@ -446,8 +448,52 @@ static void wide_string_case(const std::string& name)
     }
 }
 
+// equal values whose PADDING bytes differ (objects built member-wise in storage with different previous
+// contents: a reused stack slot, a recycled heap block) must hash equal and be found in hash containers
+template <typename T, typename... Args>
+static void padding_case(const std::string& name, Args... args)
+{
+    using nitro::lang::hash;
+    alignas(T) unsigned char b1[sizeof(T)], b2[sizeof(T)], b3[sizeof(T)];
+    std::memset(b1, 0x00, sizeof b1);
+    std::memset(b2, 0xA5, sizeof b2);
+    std::memset(b3, 0xFF, sizeof b3);
+    T* x = new (b1) T(args...);
+    T* y = new (b2) T(args...);
+    T* z = new (b3) T(args...);
+    stats["padding-cases"]++;
+    if (!(*x == *y) || !(*y == *z))
+        viol(name + ":equal-construction-gives-unequal-values", "");
+    else if (hash(*x) != hash(*y) || hash(*y) != hash(*z))
+        viol(name + ":equal-values-hash-differently", "the objects differ in their padding bytes only");
+    else
+    {
+        nitro::lang::unordered_set<T> set;
+        set.insert(*x);
+        if (set.count(*y) != 1 || set.count(*z) != 1)
+            viol("unordered_set<" + name + ">:inserted-key-not-found", "equal value with other padding bytes");
+    }
+    x->~T();
+    y->~T();
+    z->~T();
+}
+
+static void check_padding()
+{
+    padding_case<std::tuple<char, int>>("tuple<char,int>", 'a', 7);
+    padding_case<std::tuple<std::int16_t, std::int64_t>>("tuple<int16,int64>", std::int16_t(3), std::int64_t(1) << 40);
+    padding_case<std::tuple<bool, std::uint64_t, std::uint8_t>>("tuple<bool,uint64,uint8>", true, std::uint64_t(9), std::uint8_t(200));
+    padding_case<std::pair<char, long>>("pair<char,long>", 'z', 123456789L);
+    padding_case<std::pair<std::pair<char, int>, short>>("pair<pair<char,int>,short>", std::make_pair('q', 5), short(2));
+    padding_case<std::tuple<char, std::tuple<short, long>, char>>("tuple<char,tuple<short,long>,char>", 'c', std::make_tuple(short(1), 2L), 'd');
+    padding_case<std::variant<char, long>>("variant<char,long>", 'v');
+    padding_case<A>("struct<int8,int,longlong>", std::int8_t(1), 2, 3LL);
+    padding_case<D>("struct<bool,char,uint64,float>", true, 'x', 5ULL, 0.5f);
+}
+
 static void check_more_types(std::uint64_t seed)
 {
+    check_padding();
     wide_string_case<std::wstring>("wstring");
     wide_string_case<std::u16string>("u16string");
     wide_string_case<std::u32string>("u32string");
